@@ -57,6 +57,10 @@ CLAIMED = {
          "(all str operations lifted pointwise; equality with a single-pass reference substitution decided by z3), table-API histories after "
          "a first expansion, and a cvc5 str.replace_all identity over unbounded bracket-free strings for the replacement chain read from the live code",
          "DESIGN.md 4/C06", "symbolic execution of real code + z3; SMT-LIB side query (cvc5 strings)"),
+ "C19": ("the real ActiveTagMatcher/value objects/providers run on enumerated tag sequences with symbolic current values (numeric value an "
+         "unbounded z3 integer under ge/le/eq, string and boolean values, symbolic knowledge of each category); should_exclude_with is "
+         "compared with the documented per-category formula by the solver", "DESIGN.md 4/C19",
+         "symbolic execution of real code + z3 (symbolic current values, enumerated tag sequences)"),
 }
 NA_REASON = "check not built yet in this round (planned, see DESIGN.md section 4)"
 checks = []
